@@ -983,22 +983,24 @@ func (ex *Exec) siteAsserts(f *frame, st *State, b *ssa.BasicBlock, ins ssa.Inst
 	if !ins.Pos().IsValid() {
 		return
 	}
-	text := ex.V.srcText(ins, ins.Pos())
 	for _, sa := range f.contract.Sites {
-		if name, ok := strings.CutPrefix(sa.Site, "call:"); ok {
-			// at "call:<name>": before every call (go, defer) of a function or method of that name
-			// at "call:<name>@<case>": only inside that case of a (type) switch
-			name, cs, inCase := strings.Cut(name, "@")
-			if calleeName(ins) != name || (inCase && ex.V.enclosingCase(ins.Pos()) != cs) {
-				continue
-			}
-		} else if !strings.HasPrefix(text, sa.Site) {
+		if !ex.V.siteMatches(sa, ins) {
 			continue
 		}
 		sa.Hits++
 		env := ex.frameEnv(f, st, f.entry)
 		env.siteBlock = b
 		env.siteInstr = ins
+		if sa.Mark {
+			// mark[name]: no obligation; the function-local flag "reached this site with the expression true" is set
+			v, err := env.trans(sa.Expr)
+			if err != nil {
+				ex.oblige(f, st, "assert", "mark:"+sa.Label+":does-not-attach", "", ins.Pos(), tFalse, "the contract no longer attaches to the code ("+err.Error()+"): "+sa.Text)
+				continue
+			}
+			ex.set(st, markComp(f.fn, sa.Label), v.t)
+			continue
+		}
 		env.goal = true
 		v, err := env.trans(sa.Expr)
 		if err != nil {
@@ -1010,6 +1012,42 @@ func (ex *Exec) siteAsserts(f *frame, st *State, b *ssa.BasicBlock, ins ssa.Inst
 			detail += "@" + cs
 		}
 		ex.oblige(f, st, "assert", detail, sa.Label, ins.Pos(), v.t, "assertion before "+sa.Site+": "+sa.Text)
+	}
+}
+
+// siteMatches: does a site clause attach before this instruction?
+func (V *Verifier) siteMatches(sa *SiteAssert, ins ssa.Instruction) bool {
+	switch ins.(type) {
+	case *ssa.Call, *ssa.MapUpdate, *ssa.Go, *ssa.Defer, *ssa.Return:
+	default:
+		return false
+	}
+	if !ins.Pos().IsValid() {
+		return false
+	}
+	if name, ok := strings.CutPrefix(sa.Site, "call:"); ok {
+		// at "call:<name>": before every call (go, defer) of a function or method of that name;
+		// at "call:<name>@<case>": only inside that case of a (type) switch
+		name, cs, inCase := strings.Cut(name, "@")
+		return calleeName(ins) == name && (!inCase || V.enclosingCase(ins.Pos()) == cs)
+	}
+	return strings.HasPrefix(V.srcText(ins, ins.Pos()), sa.Site)
+}
+
+// markComp: the state component of a mark (function-local: no call, loop cut or frame condition touches it except the
+// loop cut of a loop that contains the marked site).
+func markComp(fn *ssa.Function, name string) string { return "S:" + funcName(fn) + ":" + name }
+
+// initMarks: at the entry of a function (verified or inlined) none of its marks is set.
+func (ex *Exec) initMarks(f *frame, st *State) {
+	if f.contract == nil {
+		return
+	}
+	for _, sa := range f.contract.Sites {
+		if sa.Mark {
+			ex.regComp(markComp(f.fn, sa.Label), SBool)
+			ex.set(st, markComp(f.fn, sa.Label), tFalse)
+		}
 	}
 }
 
@@ -1111,7 +1149,7 @@ func (ex *Exec) enterLoop(f *frame, st *State, h *ssa.BasicBlock, li *loopInfo, 
 	for _, c := range mods {
 		if c == "*" {
 			for _, k := range sortedKeys(ex.V.compSorts) {
-				if k != compAlloc && !strings.HasPrefix(k, "LK:") && !(strings.HasPrefix(k, "LA:") || strings.HasPrefix(k, "LH:")) && !strings.HasPrefix(k, "G:") {
+				if k != compAlloc && !strings.HasPrefix(k, "LK:") && !(strings.HasPrefix(k, "LA:") || strings.HasPrefix(k, "LH:")) && !strings.HasPrefix(k, "G:") && !strings.HasPrefix(k, "S:") {
 					ex.loopHavoc(st, k)
 				}
 			}
